@@ -58,9 +58,10 @@ def check(ctx):
     # mechanisms this property rests on (see shared.py): a change there is reported here as well
     from . import shared as _sh
 
-    ctx.run(_sh.gaf_reader)
-    ctx.run(_sh.cli_layer, "gaftools.cli.view")
-    ctx.run(_sh.cli_layer, "gaftools.cli.realign")
+    ctx.run(_sh.r16_9)  # C16 owns the column rule
+    ctx.run_shared(_sh.gaf_reader)
+    ctx.run_shared(_sh.cli_layer, "gaftools.cli.view")
+    ctx.run_shared(_sh.cli_layer, "gaftools.cli.realign")
 
 
 # ---------------------------------------------------------------------------------------------
